@@ -2,7 +2,7 @@
    Only statements; proofs are in Proofs/ResP*.v and Proofs/WorkerP*.v. *)
 From Coq Require Import ZArith Bool List.
 Import ListNotations.
-From Verif Require Import Model.Val Model.Res Model.Worker Proofs.ResP Proofs.ResP2 Proofs.WorkerP.
+From Verif Require Import Model.Val Model.Res Model.Worker Proofs.ResP Proofs.ResP2 Proofs.WorkerP Proofs.WorkerP2.
 Open Scope Z_scope.
 
 (* For every history of allocate / allocate_multiple / deallocate / get_allocated_resources on a
@@ -68,3 +68,41 @@ Theorem C04_pool_nonneg : forall ops P,
   Forall (fun W => nonneg_vec (r_avail (w_res W))) (p_workers (p_run ops P)).
 Proof. exact pool_nonneg. Qed.
 Print Assumptions C04_pool_nonneg.
+
+(* ---- who holds what, on every worker state reachable by operations whose placements and loads are
+   fresh (the task / profile is not already resident there) and whose requests are non-negative and
+   ask for something; tbl is the table of the batch strategies in use (one object per identifier) ---- *)
+Theorem C04_worker_invariant : forall tbl id v w, NoDup (map fst v) -> nonneg_vec v ->
+  w_reach tbl (w_new id v) w -> WInv tbl w.
+Proof. intros tbl id v w Hv Hn Hr. eapply winv_reach; [apply winv_new; assumption|exact Hr]. Qed.
+Print Assumptions C04_worker_invariant.
+
+(* a resource is held exactly while its task / a member of its batch / its profile is resident *)
+Theorem C04_worker_held_exactly : forall tbl w, WInv tbl w ->
+  (forall c, al_find c (r_allocs (w_res w)) <> None ->
+     match c with
+     | CTask t => exists s, zfind t (w_placed w) = Some s /\ s_is_batch s = false
+     | CBatch b => exists sid mem t, zfind sid (w_btask w) = Some b /\ zfind sid (w_batches w) = Some mem /\
+                                   In t mem /\ zfind t (w_placed w) = Some (tbl sid)
+     | CProf p => zfind p (w_avail_prof w) <> None \/ zfind p (w_pend_prof w) <> None
+     end) /\
+  (forall t s, zfind t (w_placed w) = Some s -> s_is_batch s = false -> Held (r_allocs (w_res w)) (CTask t) (s_req s)) /\
+  (forall t s, zfind t (w_placed w) = Some s -> s_is_batch s = true ->
+     exists b, zfind (s_id s) (w_btask w) = Some b /\ Held (r_allocs (w_res w)) (CBatch b) (s_req s)) /\
+  (forall p s, zfind p (w_avail_prof w) = Some s \/ zfind p (w_pend_prof w) = Some s ->
+     Held (r_allocs (w_res w)) (CProf p) (s_req s)).
+Proof. exact winv_held_exactly. Qed.
+Print Assumptions C04_worker_held_exactly.
+
+(* a refused operation changes nothing *)
+Theorem C04_worker_refusal : forall tbl w o e, WInv tbl w -> wop_ok tbl w o ->
+  snd (w_opstep w o) = Err e -> fst (w_opstep w o) = w.
+Proof. intros tbl w o e HI Ho. apply (proj2 (winv_opstep tbl w o HI Ho)). Qed.
+Print Assumptions C04_worker_refusal.
+
+(* removing everything restores full capacity *)
+Theorem C04_worker_remove_all : forall tbl w, WInv tbl w ->
+  w_placed w = [] -> w_avail_prof w = [] -> w_pend_prof w = [] ->
+  r_allocs (w_res w) = [] /\ r_avail (w_res w) = r_total (w_res w).
+Proof. exact winv_empty_full. Qed.
+Print Assumptions C04_worker_remove_all.
